@@ -112,10 +112,10 @@ def _json_neighbour(E, case):
 class Env(object):
     """everything built for one case"""
 
-    def __init__(self, case, protocols=None):
+    def __init__(self, case, protocols=None, B=None):
         self.case = case
         U, m = case["U"], case["m"]
-        self.B = build.Built(U)
+        self.B = B if B is not None else build.Built(U)
         self.rec = build.Recorder()
         self.svc = build.make_service(self.B, "Svc", [m], self.rec)
         inp, outp = (protocols or _protocols)(case)
